@@ -5,12 +5,20 @@ from props import algcommon
 ALLOWED_AXIOMS = set()
 TRUSTED_BASE = algcommon.TRUSTED
 ASSUMPTIONS = ["region tests within solver tolerance of their boundary (and ellipsoid pairs without a checkable certificate) are skipped and counted"]
-KEYS = ("eliminated",)
+KEYS = ("eliminated", "pessimistic_set")
 
 
 def run(ctx):
     n = 10 if ctx.quick else 60
     recs = scenarios.collect(ctx, algrun.ALGOS, n, small=ctx.quick)
+    import random
+    prng = random.Random(977 + ctx.seed)
+    for a in ("PaVeBa", "PaVeBaGP-DE", "PaVeBaPartialGP-ell", "VOGP"):
+        for _ in range(2 if ctx.quick else 10):
+            recs.append(scenarios.run_spec(scenarios.later_facet_probe(prng, a)))
+    for kind in ("stale-witness", "tie"):
+        for v in range(2 if ctx.quick else 3):
+            recs.append(scenarios.run_spec(scenarios.epal_directed(kind, variant=v), max_steps=6))
     an = algcheck.Analysis(ctx, recs)
     viol = algcommon.diff_violations(an, KEYS, "C02")
     for r in recs:
